@@ -82,6 +82,7 @@ def run(ctx):
                 ctx.ok("C15.N2", fn, "get:%s" % which, "fallible lookup (no panic)", line=line)
     ctx.floor("C15.N2", "digest lookups in the selection walkers", nlook, 4)
     n3(ctx, fx, H)
+    n6(ctx, fx, H)
     # N4: narrowing addresses array elements by position: the list walkers pair selection and claims in lock step over the full element
     # sequences (rule shared with C06.H2 / C01.f): a presentation that withholds an earlier element must not shift later selectors
     import c06
@@ -90,6 +91,40 @@ def run(ctx):
     # path, by the selected list (what the holder was constructed with must not shine through) — rule shared with C10.F3
     import c10
     c10.f3(common.RelabelCtx(ctx, "C15.N5", keep=("json-disclosures",)), fx)
+
+
+def n6(ctx, fx, H):
+    """the walk's control flow depends on the disclosures that happen to be available only through keyed lookups of payload digests: a
+    branch in a selection walker on any other state derived from the disclosure set as a whole (a cached flag, a count, `is_empty()`, a scan
+    over all disclosures) makes the walk over a narrowed presentation differ from the walk over the issued SD-JWT"""
+    KEYED = ("get", "index", "contains_key", "get_key_value", "get_mut")
+    STATE_ADTS = ("SDJWTCommon", hmodel.HSTRUCT)
+    nsw = 0
+    for fn in H.sel_fns:
+        conds = [(b, c) for (b, tt, ft, c) in common.bool_switches(fn)] + [(b, subj) for (b, subj) in common.discr_switches(fn)]
+        for (b, c) in conds:
+            nsw += 1
+            bad = None
+            stack, seen = [c], set()
+            while stack and bad is None:
+                x = stack.pop()
+                if id(x) in seen:
+                    continue
+                seen.add(id(x))
+                if x.kind == "call" and x.d["term"].get("name") in KEYED and x.kids and (recv_is_field(x, DECODED) or recv_is_field(x, RAW)):
+                    stack.extend(x.kids[1:])   # the key is judged, the map is the sanctioned access
+                    continue
+                if x.kind == "field" and x.d.get("adt") in STATE_ADTS and x.d.get("name") not in ("sd_jwt_engine",):
+                    bad = x
+                    break
+                stack.extend(k for k in x.kids if k.kind != "cycle")
+            if bad is not None:
+                ctx.finding("C15.N6", fn, "walk-depends-on-availability:%s" % bad.d.get("name"), "a branch of the selection walk depends on `%s`, state derived from the set of disclosures this holder was "
+                            "given as a whole (not a keyed lookup of a payload digest): a holder built from a narrowed presentation takes a different path than one built from the issued SD-JWT"
+                            % bad.d.get("name"), line=fn.term(b).get("line"))
+    if nsw:
+        ctx.ok("C15.N6", H.sel_entry, "walk-keyed-only", "%d branch conditions in the selection walkers; holder / engine state enters them only through keyed lookups of payload digests" % nsw)
+    ctx.floor("C15.N6", "branch conditions in the selection walkers", nsw, 6)
 
 
 def n3(ctx, fx, H):
